@@ -439,7 +439,14 @@ func displayNameRuleFor(c *Ctx, r *Report, clause string, gen, rem *FuncRef) {
 		if !ok || (be.Op != token.EQL && be.Op != token.NEQ) {
 			return true
 		}
-		for _, side := range []ast.Expr{be.X, be.Y} {
+		for k, side := range []ast.Expr{be.X, be.Y} {
+			other := unparen([]ast.Expr{be.Y, be.X}[k])
+			if se, isSl := other.(*ast.SliceExpr); isSl {
+				other = unparen(se.X)
+			}
+			if identObj(rinfo, other) != in {
+				continue // not a test of the name's own text (e.g. `rest != ""` on the stripped text)
+			}
 			if p, ok := constString(rinfo, side); ok && p != prefix {
 				why = fmt.Sprintf("the name is compared with %q, not with genTempName's prefix %q", p, prefix)
 			}
@@ -481,6 +488,8 @@ func displayNameRuleFor(c *Ctx, r *Report, clause string, gen, rem *FuncRef) {
 	})
 	// some return strips (slice from len(prefix) / TrimPrefix) and some return gives the name back unchanged
 	strips, keeps := false, false
+	rdefs := newDefs(rinfo)
+	rdefs.scan(rem.Decl.Body)
 	ast.Inspect(rem.Decl.Body, func(n ast.Node) bool {
 		rt, ok := n.(*ast.ReturnStmt)
 		if !ok || len(rt.Results) != 1 {
@@ -491,6 +500,16 @@ func displayNameRuleFor(c *Ctx, r *Report, clause string, gen, rem *FuncRef) {
 			return true
 		}
 		ast.Inspect(rt.Results[0], func(m ast.Node) bool {
+			if id, isId := m.(*ast.Ident); isId {
+				// a local bound once to the stripped text (`rest := strings.TrimPrefix(in, P)`)
+				if o := rinfo.Uses[id]; o != nil && rdefs.count[o] == 1 && rdefs.single[o] != nil {
+					if call, isC := unparen(rdefs.single[o]).(*ast.CallExpr); isC {
+						if fn := callee(rinfo, call); fn != nil && fn.FullName() == "strings.TrimPrefix" {
+							strips = true
+						}
+					}
+				}
+			}
 			switch x := m.(type) {
 			case *ast.SliceExpr:
 				if identObj(rinfo, x.X) == in && x.Low != nil && x.High == nil {
@@ -529,6 +548,37 @@ func displayNameRuleFor(c *Ctx, r *Report, clause string, gen, rem *FuncRef) {
 					return constant.MakeInt64(cl.n), true
 				case t.Op == "call" && (strings.HasSuffix(t.Name, "strings.HasPrefix") || strings.HasSuffix(t.Name, "TestPrefix")):
 					return constant.MakeBool(cl.prefixed), true
+				case t.Op == "cmp" && (t.Name == "==" || t.Name == "!=") && len(t.Args) == 2 && isTrimOfIN(t.Args[0], prefix) != isTrimOfIN(t.Args[1], prefix):
+					// the stripped text compared with the name itself (equal iff there was nothing to strip) or with ""
+					o := t.Args[1]
+					if isTrimOfIN(o, prefix) {
+						o = t.Args[0]
+					}
+					eq, known := false, false
+					if o.String() == "IN" {
+						eq, known = !cl.prefixed, true
+					} else if o.Op == "const" && o.Val != nil && o.Val.Kind() == constant.String {
+						if constant.StringVal(o.Val) == "" {
+							rest := cl.n
+							if cl.prefixed {
+								rest -= int64(len(prefix))
+							}
+							eq, known = rest == 0, true
+						}
+					}
+					if !known {
+						return nil, false
+					}
+					if t.Name == "!=" {
+						eq = !eq
+					}
+					return constant.MakeBool(eq), true
+				case t.Op == "len" && len(t.Args) == 1 && isTrimOfIN(t.Args[0], prefix):
+					rest := cl.n
+					if cl.prefixed {
+						rest -= int64(len(prefix))
+					}
+					return constant.MakeInt64(rest), true
 				case t.Op == "cmp" && (t.Name == "==" || t.Name == "!=") && strings.Contains(ts, "IN[") && strings.Contains(ts, strconv.Quote(prefix)):
 					v := cl.prefixed
 					if t.Name == "!=" {
@@ -561,6 +611,14 @@ func displayNameRuleFor(c *Ctx, r *Report, clause string, gen, rem *FuncRef) {
 	r.Check(why == "", clause, "R1 PROVENANCE", key, c.pos(rem.Decl.Pos()),
 		fmt.Sprintf("genTempName prepends %q; RemoveTempName tests for that prefix and removes exactly its %d bytes: a literal is displayed with its own character(s), every other name unchanged", prefix, len(prefix)),
 		"the displayed name of a character-literal token is not the literal: "+why)
+}
+
+// isTrimOfIN: the term strings.TrimPrefix(IN, prefix).
+func isTrimOfIN(t *Term, prefix string) bool {
+	if t == nil || t.Op != "call" || !strings.HasSuffix(t.Name, "strings.TrimPrefix") || len(t.Args) != 2 {
+		return false
+	}
+	return t.Args[0].String() == "IN" && t.Args[1].Op == "const" && t.Args[1].Val != nil && t.Args[1].Val.Kind() == constant.String && constant.StringVal(t.Args[1].Val) == prefix
 }
 
 // collectsInto: every iteration of rs contributes exactly one entry to the slice X, taken from the element:
